@@ -130,7 +130,7 @@ Theorem model_shapes_match_source :
   code_is_compare false int_cmp_code /\ code_is_compare true float_cmp_code /\
   (exists l, pred_codes = Some l /\
      forall c, map (aeval false c [AOp0; AOp1]) l = map (fun i => Some (AC (b2z (pred_abs i c)))) [0; 1; 2; 3; 4; 5]%nat) /\
-  seq_cmp_shape_ok = true /\ tree_cmp_shape_ok = true /\ cmp_default_shape_ok = true.
+  seq_cmp_shape_ok = true /\ tree_cmp_shape_ok = true /\ cmp_dispatch_ok cmp_dispatch_table = true.
 Proof. exact CmpProofs.source_shapes. Qed.
 Print Assumptions model_shapes_match_source.
 
